@@ -41,6 +41,14 @@ func checkC05(c *Ctx) {
 	}
 	// the failure's own TTL cell relies on WithTTL(ctx, DefaultTTL, false) installing a fresh cell (R06.3)
 	c.borrow("C06", func() { c.c06WithTTL() }, func(o *coreObl) (string, bool) { return "R05.6", o.Rule == "R06.3" })
+	// "while its result stays fresh": the stale refresh must not lower the TTL the rebuilt value is stored with (C06 R06.2)
+	c.borrow("C06", func() {
+		for _, sib := range siblings {
+			if fo := c.failover(sib); fo.Err == nil {
+				c.c06Sibling(fo)
+			}
+		}
+	}, func(o *coreObl) (string, bool) { return "R05.2", o.Rule == "R06.2" })
 	// R05.7: "a burst costs exactly one successful build" needs the election of C01: one owner per key, the builder only under
 	// ownership, the key lock held until the (possibly background) build is over
 	c.borrow("C01", func() {
@@ -365,6 +373,20 @@ func (c *Ctx) c05Constructor(sib string) {
 		}
 		if !ok {
 			r.Bad("R05.6", name, "errors-ttl", c.Pos(write.Pos), "the failure cache is not configured with TimeToLive = FailedUpdateTTL", shortTrace(p))
+		}
+		// nothing else shortens the life of a cached failure: default jitter (±5%), no eviction limits
+		if v := write.Value; v != nil && v.Kind == pw.KCall {
+			for _, a := range v.Ev.Args {
+				for _, cand := range append([]*pw.Val{a}, a.Elems...) {
+					if cand != nil && cand.Kind == pw.KFuncRef && cand.Recv != nil && cand.Recv.Fields != nil {
+						for _, f := range []string{"ExpirationJitter", "HeapInUseSoftLimit", "SysMemSoftLimit", "CountSoftLimit", "EvictFraction", "EvictionStrategy", "EvictionNeeded"} {
+							if fv, set := cand.Recv.Fields[f]; set && fv != nil {
+								r.Bad("R05.6", name, "errors-config:"+f, c.Pos(write.Pos), "the failure cache is configured with "+f+": cached failures then expire or are evicted before FailedUpdateTTL (minus the default jitter) has elapsed", shortTrace(p))
+							}
+						}
+					}
+				}
+			}
 		}
 		// default 20s when zero
 		if orig != nil && orig != ttl {
